@@ -36,7 +36,7 @@ SpawnKinds == {"apply", "map", "starmap", "doublestarmap", "start"}
 MapKinds   == {"map", "starmap", "doublestarmap"}
 
 NewT(pos) == [r |-> -2, j |-> -1, began |-> FALSE, fin |-> "no", ccb |-> "no", ecb |-> "no",
-              owed |-> FALSE, everOwed |-> FALSE, grp |-> "", settled |-> FALSE, cpos |-> pos]
+              owed |-> FALSE, everOwed |-> FALSE, late |-> FALSE, grp |-> "", settled |-> FALSE, cpos |-> pos]
 
 NoReq == [acc |-> FALSE, kind |-> "none", num |-> 0, nc |-> 1, gname |-> "", exp |-> <<>>, calls |-> 0,
           raised |-> 0, pulls |-> 0, stopSeen |-> FALSE, cancelled |-> FALSE, kfE |-> FALSE,
@@ -98,7 +98,9 @@ Pre(g0, e) ==
       vs  == Chk("C11.dense", -1, new = {} \/ new = n .. (n + Card(new) - 1))
              \cup Chk("C11.reuse", -1, (al \cap g.C) \subseteq g.alive /\ ~Has(e, "dupobj"))
       T2  == [id \in (DOMAIN g.T) \cup new |-> IF id \in DOMAIN g.T THEN g.T[id] ELSE NewT(g.pos)]
-  IN Out([g EXCEPT !.C = @ \cup new, !.prevAlive = g.alive, !.alive = al, !.T = T2], vs, Hit("C11.dense", new # {}))
+  IN Out([g EXCEPT !.C = @ \cup new, !.prevAlive = g.alive, !.alive = al, !.T = T2], vs,
+         Hit("C11.dense", new # {}) \cup Hit("C11.afterflush", new # {} /\ g.forgot # {})
+         \cup Hit("C11.groups", new # {} /\ Card(g.liveG) > 1) \cup Hit("C11.aftercancel", new # {} /\ g.gfPos > 0))
 
 (* ---- 2. group snapshots (C10, C07.forgot) ------------------------------------------------------- *)
 GroupObs(g, e) ==
@@ -293,6 +295,7 @@ OnCancel(g, e) ==
       T2 == IF okRes
             THEN [id \in DOMAIN g.T |-> IF id \in ids /\ g.T[id].fin = "no"
                                          THEN [g.T[id] EXCEPT !.owed = g.T[id].began, !.everOwed = TRUE]
+                                         ELSE IF id \in ids THEN [g.T[id] EXCEPT !.late = TRUE]   \* reached it in its last step
                                          ELSE g.T[id]]
             ELSE g.T
   IN Out([g EXCEPT !.T = T2], v1,
@@ -305,7 +308,8 @@ CancelGroups(g, names) ==    \* effect of a successful cancel_group / cancel_all
   IN [g EXCEPT !.R = [r \in DOMAIN g.R |-> IF r \in owners THEN [g.R[r] EXCEPT !.cancelled = TRUE] ELSE g.R[r]],
                !.T = [id \in DOMAIN g.T |-> IF id \in members /\ g.T[id].fin = "no" /\ id \in g.alive
                                              THEN [g.T[id] EXCEPT !.owed = g.T[id].began, !.everOwed = TRUE, !.grp = "~forgotten"]
-                                             ELSE IF id \in members THEN [g.T[id] EXCEPT !.grp = "~forgotten"]
+                                             ELSE IF id \in members
+                                             THEN [g.T[id] EXCEPT !.grp = "~forgotten", !.late = @ \/ (id \in g.alive /\ g.T[id].ecb = "no")]
                                              ELSE g.T[id]],
                !.liveG = @ \ names, !.gfPos = g.pos]
 
@@ -337,6 +341,7 @@ OnStop(g, e) ==
       T2 == IF okRes
             THEN [id \in DOMAIN g.T |-> IF id \in rs /\ g.T[id].fin = "no"
                                          THEN [g.T[id] EXCEPT !.owed = g.T[id].began, !.everOwed = TRUE]
+                                         ELSE IF id \in rs THEN [g.T[id] EXCEPT !.late = TRUE]
                                          ELSE g.T[id]]
             ELSE g.T
   IN Out([g EXCEPT !.T = T2], v1,
@@ -425,7 +430,11 @@ OnHDone(g, e) ==
       surfaceOk == okRes \/ cancelled
                    \/ (~h.re /\ e.res = "Boom" /\ e.tok \in g.inj)
                    \/ (~h.re /\ e.res = "CancelledError" /\ (g.cbCanc \/ g.extCanc))
-      kfSurf == IF e.res = "PoolIsLocked" /\ someKfE THEN "KF-E" ELSE ""
+      (* KF-K: a cancellation that reached a task during its own last step (it finished without another suspension):
+         asyncio then marks the finished Task as cancelled and a later gather() over it raises CancelledError *)
+      someKfK == \E id \in g.C : (g.T[id].owed /\ g.T[id].fin # "no") \/ g.T[id].late
+      kfSurf == IF e.res = "PoolIsLocked" /\ someKfE THEN "KF-E"
+                ELSE IF e.res = "CancelledError" /\ someKfK THEN "KF-K" ELSE ""
       vSurf == IF h.kind = "until" \/ h.overlap THEN {}     \* (two overlapping gather_and_close calls: not covered by C08)
                ELSE ChkK(IF h.kind = "gac" /\ ~g.anyExc THEN "C08.normal" ELSE "C12.surface", e.h, surfaceOk, kfSurf)
                     \cup (IF h.kind = "flush" /\ h.re THEN ChkK("C13.nothrow", e.h, okRes \/ cancelled, kfSurf) ELSE {})
@@ -468,7 +477,7 @@ OnFinal(g, e) ==
   IF ~(e.drained /\ e.idle) \/ g.void THEN g ELSE
   LET stuck == g.alive
       reqs == {r \in DOMAIN g.R : r >= 0 /\ g.R[r].acc}
-      canProgress == g.size # 0 /\ g.sizeFixed
+      canProgress == g.size # 0 /\ g.sizeFixed /\ ~g.extCanc     \* (cancelling an awaited flush/gather_and_close cancels its children)
       vReq == UNION {
         LET q == g.R[r]
             mine == {id \in g.C : g.T[id].r = r}
@@ -537,7 +546,7 @@ Post(g, e) ==
       vConc == UNION {IF g.R[r].kind \in MapKinds /\ g.R[r].acc
                       THEN Chk("C05.conc", r, Card(LiveOf(g, r)) <= g.R[r].nc) ELSE {} : r \in DOMAIN g.R}
       (* work conservation at quiet idle points *)
-      vWork == IF quiet /\ ~full /\ ~g.closed
+      vWork == IF quiet /\ ~full /\ ~g.closed /\ ~g.extCanc
                THEN UNION {IF g.R[r].kind \in MapKinds /\ g.R[r].acc /\ ~g.R[r].cancelled /\ ~g.R[r].stopSeen
                               /\ g.R[r].calls < g.R[r].num /\ g.sizeFixed
                            THEN Chk("C05.work", r, Card(LiveOf(g, r)) = g.R[r].nc) ELSE {} : r \in DOMAIN g.R}
@@ -550,7 +559,7 @@ Post(g, e) ==
                           \* as implemented, waiters are woken by the next task that ends, unless the free count is used up
                           IF g.endsSinceSet = 0 THEN "KF-B.wake" ELSE IF szobs <= 0 THEN "KF-B.set" ELSE "")
                 ELSE {}
-      vRoom == IF quiet /\ g.sizeFixed /\ g.size # Inf /\ blocked # {} /\ ~g.closed
+      vRoom == IF quiet /\ g.sizeFixed /\ g.size # Inf /\ blocked # {} /\ ~g.closed /\ ~g.extCanc
                THEN Chk("C02.room", -1, live >= g.size) ELSE {}
       T2 == IF idleH THEN [id \in DOMAIN g.T |-> IF id \notin g.alive THEN [g.T[id] EXCEPT !.settled = TRUE] ELSE g.T[id]]
             ELSE g.T
